@@ -177,6 +177,8 @@ void set_affinity_fail(int nth_from_now, int err);
 void set_mutex_init_fail(int nth_from_now, int err); // the n-th following pthread_mutex_init of the calling thread fails with err
 // which: 1 pthread_attr_init, 2 pthread_attr_setstacksize, 3 pthread_attr_getstacksize (armed for the calling thread, one shot)
 void set_attr_fail(int which, int err);
+// environment knob: the stack size a freshly initialised pthread_attr_t reports (0 = the host's default, 8 MiB on glibc); reset by begin()
+void set_default_stack(size_t bytes);
 // backtrace(): 0 real, 1 unsupported (returns 0), 2 at most one frame, 3 at most two frames (cfg "backtrace_mode")
 int backtrace_mode();
 void forget_objects(const void *p, size_t n); // objects identified by address only (atomics) inside a range of real-heap memory that is being freed
